@@ -50,6 +50,7 @@ type Type struct {
 	PtrRecv bool    // KLeaf/KAgg: methods have pointer receivers
 	Impls   []*Type // KLeaf/KAgg: interfaces implemented
 	Embeds  []*Type // KIface: embedded interfaces
+	Partial bool    // KLeaf/KAgg: implements only the explicitly declared methods of its Impls, not those of embedded interfaces
 }
 
 func Ptr(t *Type) *Type   { return &Type{Kind: KPtr, Elem: t} }
@@ -158,6 +159,8 @@ type Program struct {
 	ExtraFuncs []*Func
 	ExtraSets  []*Set
 	Hist       int // history length for the fault enumerator (0/1: single failures only)
+	ExtraDecl  string // raw declarations appended to the root package's defs.go (scope pollution)
+	PairSets   bool   // declare consecutive named sets of a package pairwise: var A, B = wire.NewSet(..), wire.NewSet(..)
 }
 
 // ---- small constructors used by families ----
